@@ -178,9 +178,10 @@ class Cyclic(Exception):
 class Encoder:
   """Numbers objects in post-order (children before parents) so that the heap is well formed."""
 
-  def __init__(self, intern: common.Interner, canonical: bool = False):
+  def __init__(self, intern: common.Interner, canonical: bool = False, sort_dicts: bool = False):
     self.intern = intern
     self.canonical = canonical  # Buildable arguments in signature order (oracle comparisons)
+    self.sort_dicts = sort_dicts  # dict insertion order ignored (oracle comparisons)
     self.ids: Dict[int, int] = {}
     self.nodes: List[str] = []
     self.kinds: List[str] = []
@@ -255,7 +256,7 @@ class Encoder:
   def reencode(self) -> "Encoder":
     """A new encoder with the SAME numbering for the objects already numbered, describing their
     current state (after an in-place edit); objects created since are appended."""
-    e2 = type(self)(self.intern, canonical=self.canonical)
+    e2 = type(self)(self.intern, canonical=self.canonical, sort_dicts=self.sort_dicts)
     e2.fns = dict(self.fns)
     e2.ids = dict(self.ids)
     e2.by_index = list(self.by_index)
@@ -331,7 +332,10 @@ class Encoder:
       kvs = g_list([g_pair(self.key_atom(k), self.ref(x)) for k, x in v.items()])
       return f"(NDefaultDict {f} {kvs})", "defaultdict"
     if isinstance(v, dict):
-      kvs = g_list([g_pair(self.key_atom(k), self.ref(x)) for k, x in v.items()])
+      items = list(v.items())
+      if self.sort_dicts:
+        items.sort(key=lambda kv: (type(kv[0]).__name__, repr(kv[0])))
+      kvs = g_list([g_pair(self.key_atom(k), self.ref(x)) for k, x in items])
       return f"(NDict {kvs})", "dict"
     if isinstance(v, list):
       return f"(NList {g_list([self.ref(x) for x in v])})", "list"
